@@ -2192,4 +2192,105 @@ theorem loops_layer_is_lifting (s : Sig) (body : PDict → Res Val) (p : PDict) 
   simp only [evalChainL]
   exact liftT_all_eq_wrapped _ _ hl ht hd a as kw
 
+/-! ## round k6: a CACHED object in a world where other objects share its dict -/
+
+/-- **One call of a stack with a cache layer in ANY state whose dict holds results of `f`**: the dict still holds results of `f`
+afterwards (with the call added to the calls behind it), and the call is executed iff no call behind the dict is the same
+combination - else answered with the stored result of the first such call. -/
+theorem stack_cache_step_from (s : Sig) (body : PDict → Res Val) (unh : Call → Bool) (p : PDict)
+    (above below : List (Cls × PDict)) (ha : noCache above) (hb : noCache below)
+    (st0 : HSt) (seen0 : List Call) (h0 : CacheHolds (resultOf s body) st0.cache seen0) (hok0 : ∀ x ∈ seen0, Call.ok x)
+    (c : Call) (hc : HistCallFor (classes (above ++ (Cls.cache, p) :: below)) s body unh above c) :
+    let seen := reach s above
+    let e := evalH s body unh (above ++ (Cls.cache, p) :: below) st0 c
+    CacheHolds (resultOf s body) e.1.cache (seen0 ++ [seen c]) ∧
+    ((∀ y ∈ seen0, ¬ sameComb y (seen c)) → e.1.evals.length = st0.evals.length + 1 ∧ e.2 = applyFn s body c) ∧
+    ((∃ y ∈ seen0, sameComb y (seen c)) → e.1.evals.length = st0.evals.length ∧
+      ∃ h1 y0 h2, seen0 = h1 ++ y0 :: h2 ∧ sameComb y0 (seen c) ∧ (∀ y ∈ h1, ¬ sameComb y (seen c)) ∧
+        e.2 = .ok (resultOf s body y0)) := by
+  intro seen e
+  have hKa : Within (classes (above ++ (Cls.cache, p) :: below)) above :=
+    fun w hw => within_classes _ w (by simp [hw])
+  have hKb : Within (classes (above ++ (Cls.cache, p) :: below)) below :=
+    fun w hw => within_classes _ w (by simp [hw])
+  obtain ⟨_, g2, g3⟩ := stack_cache_history_from s body unh p above below ha hb st0 seen0 h0 hok0 [] c
+    (by intro x hx; simp at hx) hc
+  simp only [List.map_nil, List.append_nil, List.nil_append, runH, List.getLast?_singleton, Option.some.injEq] at g2 g3
+  refine ⟨?_, g2, g3⟩
+  let cst0 : CacheSt := { cache := st0.cache, evals := st0.cache.map (·.1) }
+  obtain ⟨hcache, _, _⟩ := runH_refines_for _ s body unh p above below ha hb hKa hKb [c] st0 cst0 rfl
+    (by intro x hx; simp at hx; subst hx; exact ⟨hc.1, hc.2.1⟩)
+  simp only [runH, List.map_cons, List.map_nil] at hcache
+  obtain ⟨inv, _⟩ := runCache_inv (resultOf s body) [seen c] cst0 seen0 h0
+  show CacheHolds (resultOf s body) (evalH s body unh (above ++ (Cls.cache, p) :: below) st0 c).1.cache _
+  rw [hcache]
+  exact ⟨rfl, inv.nodup, inv.keys, inv.first⟩
+
+
+/-- the dict the cache layer of object `o` holds in world `w` (empty when it has not been created yet) -/
+def dictOf (w : MWorld) (o : MObj) : List (Val × Val) :=
+  match o.cid with
+  | some i => w.caches[i]?.getD []
+  | Option.none => []
+
+/-- **A cached object in ANY world** - whatever objects were built from it or it was built from, whichever of them share its
+dict and were called before: if the dict of its cache layer holds results of `f` (calls `seen0` behind the entries), a valid
+hashable call is executed iff no call behind the dict is the same combination, otherwise it is answered with the stored result
+of the first such call; and afterwards the dict (now an item of this object: `cid`) still holds results of `f`, the call added.
+The last conclusion is the hypothesis again, for the next call of ANY object whose cache layer holds this dict (the objects
+built from this one after its first call, and the ones it was built from): an invariant along every history of valid calls. -/
+theorem cached_object_call_in_any_world (s : Sig) (body : PDict → Res Val) (unh : Call → Bool) (w : MWorld)
+    (j : Nat) (o : MObj) (c : Call) (p : PDict) (above below : List (Cls × PDict))
+    (ho : w.objs[j]? = some o) (hch : o.chain = above ++ (Cls.cache, p) :: below)
+    (ha : noCache above) (hb : noCache below) (hwf : ∀ i, o.cid = some i → i < w.caches.length)
+    (seen0 : List Call) (h0 : CacheHolds (resultOf s body) (dictOf w o) seen0) (hok0 : ∀ x ∈ seen0, Call.ok x)
+    (hc : HistCallFor (classes (above ++ (Cls.cache, p) :: below)) s body unh above c) :
+    let seen := reach s above
+    ∃ w' r n o', stepM s body unh w (.call j c) = some (w', some (r, n)) ∧
+      w'.objs[j]? = some o' ∧ o'.chain = o.chain ∧
+      CacheHolds (resultOf s body) (dictOf w' o') (seen0 ++ [seen c]) ∧
+      ((∀ y ∈ seen0, ¬ sameComb y (seen c)) → n = w.evals.length + 1 ∧ r = applyFn s body c) ∧
+      ((∃ y ∈ seen0, sameComb y (seen c)) → n = w.evals.length ∧
+        ∃ h1 y0 h2, seen0 = h1 ++ y0 :: h2 ∧ sameComb y0 (seen c) ∧ (∀ y ∈ h1, ¬ sameComb y (seen c)) ∧
+          r = .ok (resultOf s body y0)) := by
+  intro seen
+  have hcl : hasCacheLayer o.chain = true := by simp [hasCacheLayer, hch]
+  have hj : j < w.objs.length := (List.getElem?_eq_some_iff.1 ho).1
+  cases hcid : o.cid with
+  | none =>
+    have hd : dictOf w o = [] := by simp [dictOf, hcid]
+    rw [hd] at h0
+    obtain ⟨k1, k2, k3⟩ := stack_cache_step_from s body unh p above below ha hb
+      { cache := [], evals := w.evals } seen0 h0 hok0 c hc
+    let e := evalH s body unh o.chain { cache := [], evals := w.evals } c
+    have he : e = evalH s body unh (above ++ (Cls.cache, p) :: below) { cache := [], evals := w.evals } c := by
+      show evalH s body unh o.chain _ c = _; rw [hch]
+    refine ⟨{ objs := w.objs.set j { o with cid := some w.caches.length },
+              caches := (w.caches ++ [[]]).set w.caches.length e.1.cache, evals := e.1.evals },
+            e.2, e.1.evals.length, { o with cid := some w.caches.length }, ?_, by simp [hj], rfl, ?_, ?_, ?_⟩
+    · simp only [stepM, ho, hcl, if_true, hcid]
+      simp [e]
+    · simp only [dictOf]
+      simpa [he] using k1
+    · intro hno; simpa [he] using k2 hno
+    · intro hex; simpa [he] using k3 hex
+  | some i =>
+    have hi := hwf i hcid
+    have hd : dictOf w o = w.caches[i]?.getD [] := by simp [dictOf, hcid]
+    rw [hd] at h0
+    obtain ⟨k1, k2, k3⟩ := stack_cache_step_from s body unh p above below ha hb
+      { cache := w.caches[i]?.getD [], evals := w.evals } seen0 h0 hok0 c hc
+    let e := evalH s body unh o.chain { cache := w.caches[i]?.getD [], evals := w.evals } c
+    have he : e = evalH s body unh (above ++ (Cls.cache, p) :: below) { cache := w.caches[i]?.getD [], evals := w.evals } c := by
+      show evalH s body unh o.chain _ c = _; rw [hch]
+    refine ⟨{ objs := w.objs.set j { o with cid := some i },
+              caches := w.caches.set i e.1.cache, evals := e.1.evals },
+            e.2, e.1.evals.length, { o with cid := some i }, ?_, by simp [hj], rfl, ?_, ?_, ?_⟩
+    · simp only [stepM, ho, hcl, if_true, hcid]
+      simp [e]
+    · simp only [dictOf]
+      simpa [he, hi] using k1
+    · intro hno; simpa [he] using k2 hno
+    · intro hex; simpa [he] using k3 hex
+
 end Pyg.Props.C18
